@@ -3,5 +3,8 @@
 # (coordinator only; never leaves /repo modified)
 id=$1; chk=${2:-${id%%-*}}
 git -C /repo apply /verif/seeded/$id/patch.diff || exit 2
+# the evidence file committed must come from the UNCHANGED tree: keep it aside while the changed tree is checked
+cp /verif/evidence/$chk.json /tmp/.evidence_$chk.keep 2>/dev/null
 /verif/check $chk 2>&1 | grep -v "^KNOWN-FINDING" | tail -2 | cut -c1-${COLS:-330}
 git -C /repo checkout -- .
+[ -f /tmp/.evidence_$chk.keep ] && mv /tmp/.evidence_$chk.keep /verif/evidence/$chk.json
